@@ -1024,7 +1024,8 @@ Fixpoint plookup (l : list (id * str)) (i : id) : option str :=
 
 Record ccase := mkCase {
   k_quirk : bool;                      (* Attribute.__eq__ as probed *)
-  k_setup : list op;                   (* run first, not observed *)
+  k_setup : list op;                   (* run first *)
+  k_base : view;                       (* the harness' picture after the setup *)
   k_steps : list (op * obs)
 }.
 
@@ -1053,7 +1054,7 @@ Fixpoint agrees_from (q : bool) (s : store) (v : view) (steps : list (op * obs))
 
 (* model = implementation, after every step *)
 Definition c19_agrees (c : ccase) : bool :=
-  agrees_from (k_quirk c) (run (k_quirk c) empty_store (k_setup c)) (mkV [] []) (k_steps c).
+  agrees_from (k_quirk c) (run (k_quirk c) empty_store (k_setup c)) (k_base c) (k_steps c).
 
 Definition view_meets_reference (rs : rstate) (v : view) (o : obs) : bool :=
   let f := r_forest rs in
@@ -1163,7 +1164,7 @@ Fixpoint spec_from (rs : rstate) (v : view) (steps : list (op * obs)) : bool :=
 Definition c19_spec_ok (c : ccase) : bool :=
   match ref_run empty_rstate (k_setup c) with
   | None => true
-  | Some rs => spec_from rs (mkV [] []) (k_steps c)
+  | Some rs => spec_from rs (k_base c) (k_steps c)
   end.
 
 (* how many steps of the case the reference covers (for the harness' statistics) *)
